@@ -218,7 +218,7 @@ Example C19_nonvacuous_eviction :
   processed (mkEv 1 false false false) = true /\
   handle (ex_pods, [false; true]) (mkEv 1 false false false) =
     ((filter (fun p => negb (p_id p =? 1)) ex_pods, []), mkH 0 4 [(4, false); (5, false); (1, true)]) /\
-  exists calls s, cleanup (-1) (ex_pods, []) = ClDone 0 2 calls s /\ map p_id (fst s) = [2; 3; 4].
+  exists calls s, cleanup (-1) (ex_pods, []) = ClDone 0 3 calls s /\ map p_id (fst s) = [2; 3; 4].
 Proof.
   split; [|split; [|split]].
   - cbn. repeat constructor; cbn; intuition congruence.
